@@ -18,6 +18,8 @@ CONSTANTS
  DevNoAtomResname = TRUE
  DevOrderedPairs = FALSE
  DevGateOnce = FALSE
+ DevGateStopsAtIgnored = FALSE
+ DevSkipSameItp = FALSE
  DevGateBuildOnly = FALSE
  DevMissingCache = FALSE
  DevDegree = FALSE
